@@ -31,6 +31,7 @@ import (
 	"fmt"
 	"math/rand"
 	"os"
+	"runtime"
 	"strconv"
 	"sync"
 	"sync/atomic"
@@ -347,4 +348,77 @@ func TestTsoWindow(t *testing.T) {
 	}
 	t.Logf("tso-window: W=%d: dealt %d then %d refusals with committed=0; %d more after Commit(%d), %d refusals; lagging committer: %d dealt, %d refusals retried",
 		tsoWindow, len(dealt), refused+1, len(dealt2), k, refused2+1, total, retries)
+}
+
+// TestTsoWindowEdge: the window is FULL and a committer frees it a few revisions at a time while many dealers keep asking:
+// most Deal calls are refused, a few succeed right at the edge. Whatever the interleaving of refusals, successes and
+// commits, no revision is dealt twice and nothing is dealt outside the window (KB.C18Cas: deal_unique, dealt_stays_in_ring
+// - a refusal changes nothing).
+func TestTsoWindowEdge(t *testing.T) {
+	const dealers = 12
+	rounds := 30
+	totalDealt, totalRefused := 0, 0
+	for round := 0; round < rounds && !t.Failed(); round++ {
+		ts := tso.NewTSO()
+		ts.Init(0)
+		first, _ := dealUntilRefused(ts, 4, tsoWindow/4+4000)
+		if len(first) != tsoWindow-1 {
+			t.Fatalf("tso-window-edge: %d revisions dealt before the first refusal, want %d", len(first), tsoWindow-1)
+		}
+		var stop int32
+		var wg sync.WaitGroup
+		got := make([][]uint64, dealers)
+		refused := make([]int, dealers)
+		for d := 0; d < dealers; d++ {
+			wg.Add(1)
+			go func(d int) {
+				defer wg.Done()
+				for atomic.LoadInt32(&stop) == 0 {
+					v, err := ts.Deal()
+					if err != nil {
+						refused[d]++
+						continue
+					}
+					got[d] = append(got[d], v)
+				}
+			}(d)
+		}
+		// the committer: 400 small steps
+		var committed uint64
+		for step := 0; step < 400; step++ {
+			committed += uint64(1 + step%3)
+			ts.Commit(committed)
+			for i := 0; i < 50; i++ {
+				runtime.Gosched()
+			}
+		}
+		atomic.StoreInt32(&stop, 1)
+		wg.Wait()
+		seen := make(map[uint64]int, 2048)
+		n := 0
+		for d := range got {
+			var last uint64
+			for _, v := range got[d] {
+				n++
+				if v <= last {
+					t.Errorf("tso-window-edge: round %d: one caller was dealt %d after %d", round, v, last)
+				}
+				last = v
+				if v < tsoWindow {
+					t.Errorf("tso-window-edge: round %d: revision %d dealt again (the first %d were dealt before)", round, v, tsoWindow-1)
+				}
+				if other, dup := seen[v]; dup {
+					t.Errorf("tso-window-edge: round %d: revision %d dealt to caller %d AND caller %d", round, v, other, d)
+				}
+				seen[v] = d
+				if v >= committed+tsoWindow {
+					t.Errorf("tso-window-edge: round %d: revision %d dealt with committed revision %d: outside the window", round, v, committed)
+				}
+			}
+			totalRefused += refused[d]
+		}
+		totalDealt += n
+	}
+	t.Logf("tso-window-edge: W=%d: %d rounds, %d dealers at a full window against a committer: %d dealt, %d refusals",
+		tsoWindow, rounds, dealers, totalDealt, totalRefused)
 }
